@@ -211,11 +211,11 @@ func (x *Exec) run(fi *FuncInfo) {
 		x.curWatch = x.collectWatch(fi, fr, m)
 		x.vc.watch = x.curWatch
 		if ct != nil {
-			for _, c := range ct.ClausesOf("ensures") {
+			for ei, c := range ct.ClausesOf("ensures") {
 				g := x.cevalClauseAt(c, m, fr, fi.Decl.Body.Rbrace)
 				lab := c.Label
 				if lab == "" {
-					lab = fmt.Sprintf("post%d", c.Line)
+					lab = fmt.Sprintf("post%d", ei+1)
 				}
 				x.oblige(m, fi.Key+"."+lab, "ensures", fi.Decl.Body.Rbrace, c.Src, g)
 			}
